@@ -833,6 +833,53 @@ func vc09Stress(ids *vc09Ids, seed uint64, dur, stallLimit time.Duration, confir
 	}
 	sort.Strings(res.stuckIn)
 	res.total, res.reads, res.writes = sum()
+	if !res.stalled {
+		// quiescent: every goroutine has returned. From here on every epoch stays loaded for the whole of every query,
+		// so each accessor must answer as on an idle server (a fresh MultiEpoch) holding the same epoch objects.
+		func() {
+			defer func() {
+				if x := recover(); x != nil {
+					fail("reader-panic", fmt.Sprintf("after the stress run (nothing else running): %v", x))
+				}
+			}()
+			snap := map[uint64]*Epoch{}
+			m.mu.RLock()
+			for k, ep := range m.epochs {
+				snap[k] = ep
+			}
+			m.mu.RUnlock()
+			idle := NewMultiEpoch(&Options{})
+			for k, ep := range snap {
+				_ = idle.AddEpoch(k, ep)
+			}
+			same := func(what string, a, b interface{}) {
+				if !reflect.DeepEqual(a, b) {
+					fail("stale-after-quiescence", fmt.Sprintf("every reader and writer has returned; %s = %v, an idle server holding the same %d epochs answers %v", what, a, len(snap), b))
+				}
+			}
+			for round := 0; round < 3; round++ {
+				same("GetEpochNumbers()", m.GetEpochNumbers(), idle.GetEpochNumbers())
+				same("CountEpochs()", m.CountEpochs(), idle.CountEpochs())
+				a, aerr := m.GetMostRecentAvailableEpoch()
+				b, berr := idle.GetMostRecentAvailableEpoch()
+				same("GetMostRecentAvailableEpoch() [object identity, error]", []interface{}{ids.id(a), aerr != nil}, []interface{}{ids.id(b), berr != nil})
+				a, aerr = m.GetOldestAvailableEpoch()
+				b, berr = idle.GetOldestAvailableEpoch()
+				same("GetOldestAvailableEpoch() [object identity, error]", []interface{}{ids.id(a), aerr != nil}, []interface{}{ids.id(b), berr != nil})
+				n1, e1 := m.GetMostRecentAvailableEpochNumber()
+				n2, e2 := idle.GetMostRecentAvailableEpochNumber()
+				same("GetMostRecentAvailableEpochNumber()", []interface{}{n1, e1 != nil}, []interface{}{n2, e2 != nil})
+				same("GetFaithfulVersionInfo()[epochs]", m.GetFaithfulVersionInfo()["epochs"], idle.GetFaithfulVersionInfo()["epochs"])
+				for k := uint64(88); k <= 112; k++ {
+					x, xerr := m.GetEpoch(k)
+					y, yerr := idle.GetEpoch(k)
+					same(fmt.Sprintf("GetEpoch(%d) [object identity, error]", k), []interface{}{ids.id(x), xerr != nil}, []interface{}{ids.id(y), yerr != nil})
+					same(fmt.Sprintf("HasEpoch(%d)", k), m.HasEpoch(k), idle.HasEpoch(k))
+				}
+				same("HasEpochWithSameHashAsFile(absent file)", m.HasEpochWithSameHashAsFile(vc09Path(20)), idle.HasEpochWithSameHashAsFile(vc09Path(20)))
+			}
+		}()
+	}
 	omu.Lock()
 	res.oracle = oracle
 	omu.Unlock()
